@@ -27,7 +27,7 @@ ASSUMPTIONS = [
 N = {"quick": 1500, "thorough": 60000}
 REQUIRE = {"quick": {"complete_true_2x2": 300, "decisive_false": 300, "helper_pt_events": 300,
                      "helper_seg_events": 300, "sound_Kgtm_events": 100, "inrun_pess_events": 300, "far_translation_events": 200}}
-TIMEOUT = {"quick": 900, "thorough": 3600}
+TIMEOUT = {"quick": 900, "thorough": 10800}
 
 THETAS = [3, 10, 20, 30, 45, 60, 75, 89, 90, 91, 105, 120, 135, 150, 170, 177]
 
